@@ -16,7 +16,7 @@ NOTES = {
     'C03': 'parts so far: o5m (cursor-program model with explicit `oob`, o5m_reads_in_bounds, hostile tier under ASan+UBSan in both build modes); PBF/text/layout parts in progress.',
     'C04': 'Model/Layout + Model/Buf (epochs model reallocation; raw pointers kept across calls become (epoch, offset)); capacity_independent for all scripts/capacities/modes yes|internal; purge_spec; stale-pointer theorem for the repaired ChangesetDiscussionBuilder. Open: alignment half of buf_inv, tree-level built_content (monitored, not proved).',
     'C05': 'in progress (agent c0507).',
-    'C06': 'see above; o5m model = code after fix 4708c02.',
+    'C06': 'Model/Wire + Chunks + PbfFraming; theorems for all chunkings (OPL lines, PBF framing, o5m window + dataset loop, XML feed); harness drives the real line_by_line, PBFParser framing functions and O5mParser::ensure_bytes_available (-fno-access-control) and monitors the whole Reader behind a mock decompressor; o5m model = code after fix 4708c02.',
     'C07': 'in progress (agent c0507).',
     'C08': 'Model/WriterSM: OS fault oracle, reliable_write, compressor wrappers over library contracts (GzSpec, BzSpec), writer/pool/write-thread small-step machine; harness interposes write/fsync/close (fopencookie bridge for stdio) and injects faults at every offset.',
     'C09': 'Model/Decomp with zlib/libbz2 as contract parameters; Fixes.all (= code after 20beb73, 0ac7ff4, d74b2ae) is the main line, Fixes.none kept with its refutation witnesses as regression documentation.',
@@ -26,11 +26,11 @@ NOTES = {
     'C13': 'coord_parse_exact / ts_roundtrip / ts_parse_valid_fields at full strength for the code after 5d92c23, b0f4fdb, b3b4a84, 2814835; old variants kept with refutations.',
     'C14': 'pass-through and entity tables regenerated from the source for all 0x110000 code points; OPL theorems full (after b6cf5c9); XML round trip `_partial` (XML Chars only: known finding).',
     'C15': 'full theorems after 7c7de5b / 9f963df; uint64 iteration only under the no-wrap hypothesis (`_partial`).',
-    'C16': 'see above.',
+    'C16': 'Model/Order; key-function characterisation of the five comparators, strict-weak-order theorems, CheckOrder accepts iff strictly ascending (invariant induction), sorted distinct collections accepted; all pairs over the boundary grid, all short streams, law monitors on triples.',
     'C17': 'parse∘emit theorems for WKB/EWKB/hex, WKT, GeoJSON; factory_spec / degenerate_rejected / double2string_fits full for the code after 5a3ae5e, e768562, d672e4f; printed digits of %.*f checked by execution only.',
     'C18': 'partial by design: tile range/monotonicity/nesting proved for all doubles over an abstract rounding (binary64 RNE instance proved), longitude round trip proved in binary64; lat_to_y accuracy/strict monotonicity/round trip = exhaustive execution (labelled exploration in the evidence).',
     'C19': 'Model/Mon + QueueSM + PoolSM at lock granularity; 18 theorems over all interleavings; pool exactly-once/destructor theorems `_partial` (local step facts proved, global counting argument missing); trace validation of real runs.',
-    'C20': 'see above.',
+    'C20': 'dispatch / iterator-compatibility / wrapper tables regenerated from the source by a dumper; apply_log, dispatch_shape, diffiter_spec and corollaries for all lists; 15 entry points x 27 handler kinds, all diff run-length patterns up to length 7.',
 }
 
 
